@@ -615,10 +615,35 @@ func (e *Engine) widen(st *State, fr *Frame, p *ssa.Phi, incoming *Term) *Term {
 			nb.hi, nb.hasHi = inb.hi, true
 		}
 	}
-	st.shiftSite(name)
+	sub := st.shiftSiteSub(name)
 	k := Sym(name, 0)
 	if nb.hasLo || nb.hasHi {
 		st.facts.bnd[k] = nb
+	}
+	// the new symbol equals the incoming value: relational facts established on
+	// that value before the back edge (bottom-tested loops: iv+1 < n) carry over
+	inc := incoming
+	if sub != nil {
+		inc = incoming.Map(sub)
+	}
+	if inc.K != KConst {
+		add := map[*Term]bool{}
+		for atom, v := range st.facts.b {
+			if atom.K == KBin && atom.Contains(inc) {
+				na := atom.Map(func(t *Term) *Term {
+					if t == inc {
+						return k
+					}
+					return nil
+				})
+				if na != atom {
+					add[na] = v
+				}
+			}
+		}
+		for a, v := range add {
+			st.facts.b[a] = v
+		}
 	}
 	return k
 }
